@@ -251,8 +251,28 @@ def column_of(g, n, e: ast.AST, depth: int = 4):
         return None
     if isinstance(e, ast.Call) and is_method_call(e, "setdefault") and isinstance(e.func.value, ast.Name) and len(e.args) == 2:
         return e.func.value.id, (), norm(e.args[0])
+    if isinstance(e, ast.Call) and is_method_call(e, "get") and isinstance(e.func.value, ast.Name) and len(e.args) == 1 and not e.keywords:
+        return e.func.value.id, (), norm(e.args[0])
     if isinstance(e, ast.Name):
         defs = reaching_defs(g, n.id, e.id)
+        if len(defs) > 1:
+            # `slot = D.get(k); if slot is None: slot = D[k] = ([], [])`: every definition names the same slot
+            cols = set()
+            for d in defs:
+                a_ = d.ast
+                if not (d.kind == "stmt" and isinstance(a_, ast.Assign)):
+                    return None
+                subs = [t for t in a_.targets if isinstance(t, ast.Subscript) and isinstance(t.value, ast.Name)]
+                if len(a_.targets) == 2 and len(subs) == 1 and any(isinstance(t, ast.Name) and t.id == e.id for t in a_.targets):
+                    cols.add((subs[0].value.id, (), norm(subs[0].slice)))
+                elif len(a_.targets) == 1 and isinstance(a_.targets[0], ast.Name):
+                    inner = column_of(g, d, a_.value, depth - 1)
+                    if inner is None:
+                        return None
+                    cols.add(inner)
+                else:
+                    return None
+            return cols.pop() if len(cols) == 1 else None
         if len(defs) != 1:
             return None
         d = defs[0]
